@@ -67,6 +67,11 @@ CHECKS = {
     text="Props/C04.v. C04_writing/reading_session_contract: for EVERY assignment of raising steps (guard, acquire, begin, update_keys, body/encoder, flush, end) the lock is released last iff it was acquired, the file is closed before the release whenever it was opened, flush runs, no exception is swallowed -- proved on the program extracted from the AST of molli/storage/backends.py each run, whose denotation equals the trace of the REAL context manager on all 2^7+2^5 fault vectors, with the lock observed free from another process and the file closed (C04_skeleton_is_the_code). C04_lock_implies_discipline / C04_serialised / C04_mutex / C04_writer_alone / C04_progress: for any number of processes, handles and sessions and EVERY schedule, the reader/writer lock establishes the session discipline of C02, so the file stays an insert-only map of complete records and every outcome is the abstract map's; writers are alone; the lock is never leaked. Real OS processes: 120 stepped schedules (1200 thorough) compared with the transition system inside Coq, plus free-running workers with injected delays, body/encoder faults and aliased path spellings judged by an event-log oracle.",
     note="PARTIAL for real schedules: fcntl/fasteners lock semantics are ASSUMED (encoded in the transition system, validated by the multi-process runs, not proved); process death while holding the lock and OS scheduling are not exhibited by the model. Threads sharing a handle / nested sessions in one process are outside the claim. Trusted: Coq kernel+vm_compute; harness/c04_skel.py (AST walker, recording wrappers, lock probe), harness/c04_mp.py (workers, CLOCK_MONOTONIC event log). No axioms.",
     ref="7/C04"),
+ "C01": dict(
+  technique="Coq proof of a generic positional-codec round-trip theorem, instantiated by kernel computation on wirings regenerated by sentinel execution of the real (de)serialisers (tie T) + differential correspondence through the library API evaluated by the kernel (tie H) + Python oracle",
+  text="Props/C01.v: for every well-formed molecule/ensemble, decode(msgpack(encode o)) = Some(mnorm_obj o) for the v2 encodings (C01_mol_v2/_ens_v2; = Some o when attribute values are msgpack-stable, *_exact), = reset_obj_v1(mnorm_obj o) for the legacy v1 encodings (C01_mol_v1/_ens_v1), and conformer count, arrays, atom count, bond endpoints never change (C01_nothing_else). Generic theorem roundtrip_of_wiring (all wirings accepted by wiring_ok, all objects) is proved once; the four position->slot wirings, dtypes and constructor defaults are observed on every run by running io.py on objects whose slots hold unique values. ~1150 (quick) / ~6400 (thorough) generated and bundled objects are stored in writing() and read by a fresh handle in reading(), v2 and v1, compared with the model inside Coq and field by field by the oracle.",
+  note="Trusted: Coq kernel+vm_compute; T-emitter and harness (harness/c01.py); numpy single rounding; msgpack/msgpack_numpy/numpy packing modelled (mnorm, dtype-tagged arrays), not verified; storage layer via public API only (C02-C04). Atom identity modelled as position; mult=0, non-dict attrib, ndarray attributes (oracle only) outside wf. Known findings: list-as-tuple, double-as-single-float (attrib, f_order), double-beyond-single-range-refused. No axioms.",
+  ref="7/C01"),
 }
 
 PENDING = {
